@@ -14,7 +14,7 @@ from ..core import Tally, maxdiff, g_unit, qmul_int
 from ahrs import filters as F
 from ahrs.common.quaternion import QuaternionArray
 
-DTS = [1e-3, 1e-2, 5e-2]
+DTS = [1e-3, 1e-2, 5e-2, 1.0 / 120.0, 1.0 / 60.0]      # incl. sampling rates whose period is not a round decimal
 
 
 def rate_of(u, dt):
